@@ -11,15 +11,15 @@ CHECKS = {
          "Exhaustive for all sequences of up to 3 bytes >= 0x80 (quick) / up to 4 bytes (thorough) at decoder level; sampled for whole-Cli streams.", "6/C02"),
  "C03": ("exploration", "coverage-guided fuzzing (cargo-fuzz/libFuzzer + ASan, 16 processes) + random raw-byte sessions (proptest), invariant oracle inside the target, process isolation for aborts; stack-depth probe on an unoptimised build; thorough adds generated sessions under Miri",
          "Panics, aborts, failed unsafe preconditions (debug assertions on), arithmetic overflow (checks on), sanitizer reports and the explicit invariants behind every unchecked operation are searched for over raw byte sessions with all buffer sizes 0..=64; absence is not established.", "6/C03"),
- "C04": ("exploration", "exhaustive concatenation of boundary key units + CSI length sweep + random streams, differential against a byte-level reference decoder",
+ "C04": ("exploration", "exhaustive concatenation of boundary key units + CSI length / byte-pair / triple sweeps + random streams + coverage-guided fuzzing with a terminal dictionary, all differential against a byte-level reference decoder",
          "Exhaustive to depth 4 (quick) / 5 (thorough) units over 28 boundary units, which exceeds the decoder's memory depth (previous byte + CSI flag + up to 3 pending UTF-8 bytes); every CSI length 0..=600 (thorough 5000) parameter bytes; random beyond.", "6/C04"),
  "C05": ("exploration", "state-space closure of an ideal-editor model replayed on the real Editor + model-based random sessions + the same oracle inside a coverage-guided libFuzzer+ASan target",
          "Every edge of the closure for small buffers is replayed on the real editor (exhaustive for those sizes and alphabet); random sessions for larger buffers and the Cli integration.", "6/C05"),
  "C06": ("exploration", "model-based stateful PBT with an ECMA-48 terminal emulator in lock-step, also as the oracle of a coverage-guided libFuzzer+ASan target",
          "What a terminal would display is recomputed from the sink bytes after every call and compared with prompt + line; sampled sessions.", "6/C06"),
- "C07": ("exploration", "exhaustive enumeration of short lines against a reference grammar (function level and typed through the Cli) + round-trip property on random string lists",
+ "C07": ("exploration", "exhaustive enumeration of short lines and length sweeps against a reference grammar (function level and typed through the Cli) + round-trip property on random string lists + coverage-guided fuzzing with the grammar inside the target",
          "Exhaustive for all lines of up to 10 (quick) / 11 (thorough) symbols over a 6-symbol alphabet covering every tokenizer state, up to 7/8 symbols through the whole Cli, and a second alphabet with Unicode blanks; lines touching an open escape are still compared structurally (pattern reference); round trip and long lines sampled.", "6/C07"),
- "C08": ("exploration", "exhaustive enumeration of small token lists + random lists, differential against a reference classifier",
+ "C08": ("exploration", "exhaustive enumeration of small token lists, all-scalar sweep, iterator-idiom metamorphic checks, random lists and coverage-guided fuzzing, differential against a reference classifier",
          "Exhaustive for small lists over a 6-symbol alphabet; random beyond; both through ArgList directly and through the whole Cli.", "6/C08"),
  "C09": ("exploration", "generated programs (declarations compiled with the real derive macros) x generated lines, differential against an interpreter of the declaration model",
          "Declarations are sampled from a grammar covering the derive attributes and compiled by the repository's macros at check time; lines are proptest strategies built from each declaration's model and shrink as values. Program space is sampled, not exhausted.", "6/C09"),
@@ -79,8 +79,8 @@ def main():
              "kind_free_text": "Rust harness: proptest-driven and enumerative generators, reference models, terminal emulator, fault-injecting sink, 16 worker processes per check"},
             {"name": "declgen", "path": "/verif/harness/vmodel/src/decl.rs", "serves_properties": ["C09", "C11", "C12", "C16"],
              "kind_free_text": "generator of derive-macro declarations (Rust source + model) and interpreter of the model; generated crates are compiled with the repository's macros at check time"},
-            {"name": "libfuzzer", "path": "/verif/harness/fuzzhost/fuzz", "serves_properties": ["C03", "C01", "C05", "C06", "C13", "C15"],
-             "kind_free_text": "cargo-fuzz targets (libFuzzer + AddressSanitizer, nightly): `session` (raw byte sessions, C03 invariants inside) and `lockstep` (key/API sessions with the lock-step semantic oracle of C01/C05/C06/C13/C15 inside, selected by VFUZZ_FLAGS)"},
+            {"name": "libfuzzer", "path": "/verif/harness/fuzzhost/fuzz", "serves_properties": ["C03", "C01", "C05", "C06", "C13", "C15", "C04", "C07", "C08"],
+             "kind_free_text": "cargo-fuzz targets (libFuzzer + AddressSanitizer, nightly): `session` (raw byte sessions, C03 invariants inside) `lockstep` (key/API sessions with the lock-step semantic oracle of C01/C05/C06/C13/C15 inside, selected by VFUZZ_FLAGS) and `fdiff` (function-level differentials of C04/C07/C08 against their reference models, selected by VFUZZ_MODE, with dictionaries under corpus/dict)"},
             {"name": "miri", "path": "/verif/harness/mirirun", "serves_properties": ["C03"],
              "kind_free_text": "generated sessions interpreted by Miri (thorough tier of C03): aliasing, uninitialised reads, dangling/misaligned accesses in the library's unsafe blocks"},
             {"name": "vsession", "path": "/verif/harness/vsession", "serves_properties": ["C16"],
